@@ -21,6 +21,7 @@
 
 
 #include <cassert>
+#include <cstring>
 
 
 
@@ -109,14 +110,20 @@ XalanUTF16Transcoder::transcode(
 
     while(theSourceEaten + 1 < theSourceCount)
     {
-        // Swap bytes to big endian...
-        if (theTargetPosition + 1 >= theTargetSize)
+        if (theTargetPosition >= theTargetSize)
         {
             break;
         }
         else
         {
-            theTarget[theTargetPosition++] = *reinterpret_cast<const XalanDOMChar*>(theSourceData + theSourceCount++);
+            // The source need not be aligned for a XalanDOMChar...
+            XalanDOMChar    theChar;
+
+            std::memcpy(&theChar, theSourceData + theSourceEaten, sizeof(theChar));
+
+            theTarget[theTargetPosition++] = theChar;
+
+            theSourceEaten += sizeof(theChar);
 
             *theCharSizes++ = 2;
         }
